@@ -6,7 +6,7 @@ ID=$1; TIER=${2:-quick}; MODE=${3:-}
 PROP=${4:-${ID%%-*}}     # 4th argument: run ANOTHER property's check against this change
 cd /verif
 if [ "$MODE" = "--in-repo" ]; then
-  git -C /repo apply seeded/$ID/patch.diff || exit 2
+  git -C /repo apply /verif/seeded/$ID/patch.diff || exit 2
   OUT=$(timeout 3600 ./check $PROP --tier $TIER 2>&1); RC=$?
   git -C /repo checkout -- .
 else
